@@ -45,3 +45,15 @@ class TreeIndenter4(TreeIndenter):
 
 class TreeIndenter1(TreeIndenter):
     tab_len = 1
+
+
+class BraceIndenter(TreeIndenter):
+    """another bracket vocabulary than TreeIndenter / PythonIndenter: only braces nest, parentheses are ordinary tokens"""
+    OPEN_PAREN_types = ['LBRACE']
+    CLOSE_PAREN_types = ['RBRACE']
+
+
+class ParenOnlyIndenter(TreeIndenter):
+    OPEN_PAREN_types = ['LPAR']
+    CLOSE_PAREN_types = ['RPAR']
+    tab_len = 4
